@@ -224,6 +224,9 @@ func (h *histCtx) observeClasses(o *Op, ok bool, j *Judgement) {
 	if strings.Contains(o.Tag, "applied-earlier") {
 		r.Count("approvals_of_applied_requests", 1)
 	}
+	if strings.Contains(o.Tag, "returning/") {
+		r.Count("approvals_in_returning_rounds", 1)
+	}
 	if strings.Contains(o.Tag, "outsider") {
 		r.Count("approvals_by_outsiders", 1)
 	}
